@@ -72,3 +72,13 @@ macro_rules! w_small {
         $m!($($pre)* [0, 1, 2, 3, 4, 5, 6, 7, 8])
     };
 }
+
+/// `chk!(rec, "name", expr, expected)`: evaluate `expr` (a library call) under
+/// `catch`, forbid a panic, compare with the expected value.
+#[macro_export]
+macro_rules! chk {
+    ($rec:expr, $name:expr, $call:expr, $exp:expr) => {{
+        let __r = $rec.no_panic($name, $crate::catch(|| $call))?;
+        $rec.eq($name, &__r, &$exp)?;
+    }};
+}
